@@ -266,7 +266,7 @@ ProjBkt(r) == [level |-> r.level, parent |-> r.parent, ctr |-> r.ctr]
 Proj(st) == [clock |-> st.clock, servers |-> st.servers,
              buckets |-> [b \in DOMAIN st.buckets |-> ProjBkt(st.buckets[b])],
              apps |-> [a \in DOMAIN st.apps |-> ProjApp(st.apps[a])],
-             groups |-> st.groups]
+             groups |-> st.groups, allocs |-> st.allocs]
 
 HintS(post) == [a \in AppNames(post) |-> post.apps[a].server]
 HintI(post) == [a \in AppNames(post) |-> post.apps[a].identity]
